@@ -20,8 +20,8 @@ ASSUMPTIONS = ['href/xml:base references are plain relative references without e
                'includes inside an unused xi:fallback whose processing would fail, parse=xml targets that are not well-formed together with a fallback, BOMs in text resources: tagged unspecified, only termination asserted',
                'xpointer is unsupported by design: only "an error is reported" is asserted',
                'watchdog timeouts are inconclusive; non-termination is asserted only through the deterministic fetch bound of the counting resolver or a sanitizer-detected stack overflow']
-BUDGET = {'quick': 250, 'thorough': 2500}
-WALLCAP = {'quick': 400, 'thorough': 2400}
+BUDGET = {'quick': 1000, 'thorough': 10000}
+WALLCAP = {'quick': 300, 'thorough': 1500}
 
 XINC_FATAL = set(range(276, 287))
 CODES_FOR = {'loop': XINC_FATAL, 'bad-parse': {279}, 'xpointer-text': {278}, 'xpointer-unsupported': {278}, 'no-href': {277}, 'multi-fb': {280},
@@ -508,7 +508,9 @@ def run_case(case, ex):
         err = e.stderr
         i = err.find('ERROR: '); j = err.find('runtime error')
         k = min(x for x in (i, j, len(err)) if x >= 0)
-        return False, 'executor died rc=%s (memory-safety / sanitizer failure)\n%s' % (e.rc, err[max(0, k - 200):k + 2500])
+        if k == len(err): k = max(0, len(err) - 2500)        # report header scrolled out of the kept stderr tail (very deep recursion)
+        return False, 'executor died rc=%s (memory-safety / sanitizer failure%s)\n%s' % (
+            e.rc, '; deep recursion of doDOMNodeXInclude: unbounded inclusion' if err.count('doDOMNodeXInclude') > 20 else '', err[max(0, k - 200):k + 2500])
     return check_response(case, resp, 'file://' + root)
 
 LABEL_NONTRIV = {'depth>=2', 'diamond', 'fallback-used', 'parse-text', 'cause:loop'}
@@ -576,8 +578,9 @@ WITNESSES = {
                  {'events': [['SE', '{}a'], ['SE', '{}b'], ['SE', '{}k'], ['EE', '{}k'], ['EE', '{}b'], ['EE', '{}a']], 'bases': ['@/a.xml', '@/d/sub/', '@/d/sub/']}),
     'C20-D7': _w({'a.xml': '<a %s><xi:include href="zz.xml"><xi:fallback xml:base="d/"><f/></xi:fallback></xi:include></a>' % XI},
                  {'events': [['SE', '{}a'], ['SE', '{}f'], ['EE', '{}f'], ['EE', '{}a']], 'bases': ['@/a.xml', '@/d/']}),
-    'C20-D9': _w({'d/a.xml': '<a %s><xi:include href="./../b.xml"/></a>' % XI, 'b.xml': '<b %s><xi:include href="c.xml"/></b>' % XI, 'c.xml': '<c/>'},
-                 {'events': [['SE', '{}a'], ['SE', '{}b'], ['SE', '{}c'], ['EE', '{}c'], ['EE', '{}b'], ['EE', '{}a']], 'bases': ['@/d/a.xml', '@/b.xml', '@/c.xml']}, top='d/a.xml'),
+    'C20-D9': _w({'a.xml': '<xi:include %s href="d/r.xml"/>' % XI, 'd/r.xml': '<xi:include %s href="./../s.xml"/>' % XI,
+                  's.xml': '<xi:include %s href="t.xml"/>' % XI, 't.xml': '<t/>'},
+                 {'events': [['SE', '{}t'], ['EE', '{}t']], 'bases': ['@/t.xml']}),
     'C20-D8': _w({'a.xml': '<a %s><m xml:base="virt/"><xi:include href="../b.xml"/></m></a>' % XI, 'b.xml': '<b/>'},
                  {'events': [['SE', '{}a'], ['SE', '{}m'], ['SE', '{}b'], ['EE', '{}b'], ['EE', '{}m'], ['EE', '{}a']], 'bases': ['@/a.xml', '@/virt/', '@/b.xml']}),
 }
